@@ -115,6 +115,10 @@ func evaluate(c Case) verdict {
 		return evalLadder(c)
 	case "buffers":
 		return evalBuffers(c)
+	case "serialise:directed":
+		return evalSerialiseDirected(c)
+	case "serialise:tx":
+		return evalSerialiseTx(c)
 	case "sign:ecdsa-random", "sign:ecdsa-rfc6979", "sign:ecdsa-nonce", "sign:schnorr", "recover":
 		return evalSigner(c)
 	}
@@ -161,7 +165,9 @@ func main() {
 		replay(*replayFile)
 		return
 	}
-	r.Budget = 100 * time.Second
+	// family sizes are fixed per tier; the budget is only a watchdog against a stuck
+	// machine (a capped run is reported as not exhaustive), it does not size the quick tier
+	r.Budget = 15 * time.Minute
 	if r.Thorough() {
 		r.Budget = 17 * time.Minute
 	}
@@ -209,6 +215,7 @@ func main() {
 	genP2C(r.Thorough(), emit)
 	genParse(r.Thorough(), emit)
 	genXgeN(emit)
+	genSerialise(r.Thorough(), emit)
 	genLadder(r.Thorough(), emit)
 	genVolume(r.Thorough(), emit)
 	nVerify := len(all)
@@ -229,6 +236,7 @@ func main() {
 	}
 	genSigners(r.Thorough(), emitSigner)
 	genBuffers(emitSigner)
+	genSerialiseTx(r.Thorough(), emitSigner) // random-nonce phase: any nonce must serialise canonically
 	btc.EcdsaSignWithRFC6979 = false
 	run(sRandom)
 	btc.EcdsaSignWithRFC6979 = true
